@@ -111,7 +111,8 @@ struct BulkWorld : World
     // regions of 256 B / 1 KiB sit inside one page, application bytes on the same page before and behind them
     int logsz = mmu || r.chance(1, 2) ? 12 : r.chance(1, 2) ? 10 : 8;
     int slot = (int)r.below(16);
-    p.cfg = { logsz, registry, mmu, deny_in_place, slot };
+    int single = r.chance(1, 3);
+    p.cfg = { logsz, registry, mmu, deny_in_place, slot, single };
     int64_t S = 1LL << logsz;
     int n = (int)r.range(2, thorough ? 24 : 12);
     std::vector<unsigned> w = { 8, 8, 8, 6, 8, 5, 6, 8, 6, 7, (unsigned)(mmu ? 10 : 0) };
@@ -144,6 +145,7 @@ struct BulkWorld : World
   // ------------------------------------------------------------ state
   std::unique_ptr<Sandbox> sb[2];
   Sbx* impl[2];
+  int NS = 2; // live sandboxes in this run: 2, or exactly 1 (the registry then has a single entry)
   size_t S = 0;
   bool mmu_on = false, registry = false;
   Ctx* C = nullptr;
@@ -162,7 +164,7 @@ struct BulkWorld : World
   Snap snap()
   {
     Snap s;
-    for (int i = 0; i < 2; i++) {
+    for (int i = 0; i < NS; i++) {
       s.reg[i].assign(impl[i]->mem.gbase, impl[i]->mem.gbase + S);
       s.before[i].assign(impl[i]->mem.base - 4096, impl[i]->mem.base);
       s.after[i].assign(impl[i]->mem.base + S, impl[i]->mem.base + S + 4096);
@@ -184,7 +186,7 @@ struct BulkWorld : World
           return true;
       return false;
     };
-    for (int i = 0; i < 2; i++) {
+    for (int i = 0; i < NS; i++) {
       for (size_t k = 0; k < S; k++)
         if (a.reg[i][k] != b.reg[i][k] && !ok(i, k)) {
           C->violate("C10", std::string("wrote_outside_given_range@") + opn, "byte %zu of sandbox #%d changed", k, i);
@@ -227,7 +229,7 @@ struct BulkWorld : World
   }
   bool outside_all(uintptr_t a, unsigned __int128 len)
   {
-    for (int i = 0; i < 2; i++) {
+    for (int i = 0; i < NS; i++) {
       uintptr_t b = (uintptr_t)impl[i]->mem.base;
       unsigned __int128 end = (unsigned __int128)a + len;
       if ((unsigned __int128)a < (unsigned __int128)b + S && end > b)
@@ -274,7 +276,7 @@ struct BulkWorld : World
 
   void fill_patterns()
   {
-    for (int i = 0; i < 2; i++)
+    for (int i = 0; i < NS; i++)
       for (size_t k = 0; k < S; k++)
         impl[i]->mem.gbase[k] = (uint8_t)(1 + (k * 7 + (size_t)i * 13) % 250);
     for (size_t k = 0; k < ARENA; k++)
@@ -347,7 +349,7 @@ struct BulkWorld : World
     Expect e;
     std::vector<Range> allowed, rallowed;
     uintptr_t sa;
-    int ssbx = (int)(op.a[3] & 1); // source sandbox for from_sbx
+    int ssbx = NS == 1 ? 0 : (int)(op.a[3] & 1); // source sandbox for from_sbx
     if (from_sbx) {
       uint64_t soff = (uint64_t)op.a[4] & (S - 1);
       auto s = ptr_at<char>(ssbx, (int64_t)soff, (op.a[5] % 11) == 0);
@@ -891,9 +893,12 @@ struct BulkWorld : World
     Sbx::cfg.mmu = mmu_on;
     Sbx::cfg.deny_in_place = p.cfg.size() > 3 && p.cfg[3];
     S = Sbx::cfg.size;
+    NS = p.cfg.size() > 5 && p.cfg[5] ? 1 : 2;
+    if (NS == 1)
+      c.probe("exactly_one_live_sandbox");
     arena = (uint8_t*)mmap(nullptr, ARENA, PROT_READ | PROT_WRITE, MAP_PRIVATE | MAP_ANONYMOUS, -1, 0);
     appbuf = arena + 4096 + 64;
-    for (int i = 0; i < 2; i++) {
+    for (int i = 0; i < NS; i++) {
       sb[i] = std::make_unique<Sandbox>();
       sb[i]->create_sandbox(0);
       impl[i] = sb[i]->get_sandbox_impl();
@@ -945,7 +950,7 @@ struct BulkWorld : World
           break;
       }
     }
-    for (int i = 0; i < 2; i++) {
+    for (int i = 0; i < NS; i++) {
       attempt([&] { sb[i]->destroy_sandbox(); });
       sb[i].reset();
     }
